@@ -1312,10 +1312,14 @@ def replay_property(prop: str, known=None) -> dict | None:
     if not fns:
         return None
     d, sess = corpus()
+    suite_note = ""
     if sess.get("returncode") not in (0,):
-        # the repository's suite must pass with the plugin loaded: anything else is an infrastructure problem of the harvest
-        raise HarnessError(f"harvest: the repository's test suite did not pass with the plugin loaded (exit {sess.get('returncode')}): "
-                           f"{sess.get('tail', '')[-400:]}")
+        # The suite passes with the plugin loaded on the unchanged tree (484 passed / 19 skipped, as without it).  A failing suite means
+        # the repository's own tests object to the tree under test: that is their verdict, not this check's; the calls recorded up to
+        # there are still real calls and are replayed, the exit status goes into the evidence.
+        suite_note = f" WARNING: the repository's suite exited {sess.get('returncode')} with the plugin loaded"
+        if not list(d.glob("calls-*.jsonl")):
+            raise HarnessError(f"harvest: the repository's test suite produced no records (exit {sess.get('returncode')}): {sess.get('tail', '')[-400:]}")
     recs = load_records(d)
     items, stats = convert_all(recs, props=[prop])
     res = evaluate(prop, items.get(prop, []), known)
@@ -1332,7 +1336,7 @@ def replay_property(prop: str, known=None) -> dict | None:
            "harvested_skipped": dict(skipped.most_common(12)), "harvested_errors": res["errors"],
            "harvested_suite": {k: sess.get(k) for k in ("cmd", "returncode", "wall_s", "records", "testscollected", "testsfailed")}}
     return {"coverage": cov, "violations": res["violations"], "line": f"harvested: calls={calls} encodable={enc} distinct={res['distinct']} "
-            f"mismatches={res['mismatches']} oracle_failures={res['oracle_failures']}"}
+            f"mismatches={res['mismatches']} oracle_failures={res['oracle_failures']}{suite_note}"}
 
 
 # ----------------------------------------------------------------------------------------------------------------
